@@ -12,7 +12,7 @@ func init() {
 		ID:         "C13",
 		Level:      "other",
 		Technique:  "forward CFG search for dead error stores + RuneError/size conjunction rule + coder-table UTF-8 conformance (static)",
-		Explain:    "Decides structural necessary conditions of C13: (1) no error produced by a codec function (in particular errInvalidUTF8 from a validating coder) is overwritten or dropped before being read; (2) every `r == utf8.RuneError` test on a DecodeRune* result is conjoined with size == 1, so valid U+FFFD is not confused with invalid UTF-8; (3) in fieldCoder UTF-8 validating coders are installed exactly where strs.EnforceUTF8(fd) holds and plain string coders of StringKind fields only where it does not; every coder literal validates UTF-8 on both the marshal and the unmarshal side or on neither; (4) every StringKind branch of the reflection codec and of prototext rejects invalid UTF-8 under strs.EnforceUTF8(fd). Also decided: the reflection decoder skips a record only on `err == errUnknown` and returns every other field-decoder error (so an InvalidUTF8 error in a map key or value is not swallowed); the errors of the JSON writer's WriteString/WriteName (which carry the UTF-8 verdict for values and map keys) are never dropped in protojson outside the reviewed table.",
+		Explain:    "Decides structural necessary conditions of C13: (1) no error produced by a codec function (in particular errInvalidUTF8 from a validating coder) is overwritten or dropped before being read; (2) every `r == utf8.RuneError` test on a DecodeRune* result is conjoined with size == 1, so valid U+FFFD is not confused with invalid UTF-8; (3) in fieldCoder UTF-8 validating coders are installed exactly where strs.EnforceUTF8(fd) holds and plain string coders of StringKind fields only where it does not; every coder literal validates UTF-8 on both the marshal and the unmarshal side or on neither; (4) every StringKind branch of the reflection codec and of prototext rejects invalid UTF-8 under strs.EnforceUTF8(fd). Also decided: the reflection decoder skips a record only on `err == errUnknown` and returns every other field-decoder error (so an InvalidUTF8 error in a map key or value is not swallowed); the errors of the JSON writer's WriteString/WriteName (which carry the UTF-8 verdict for values and map keys) are never dropped in protojson outside the reviewed table. Also: in the wire validator's map table the key validation type is decided from fd.MapKey() and the value type from fd.MapValue(); the UTF-8 validity test appears only in case clauses labelled StringKind (never shared with BytesKind).",
 		NotCovered: "the validator's per-field validation types (validate.go) and map key/value coders of encoderFuncsForValue; protojson's string path (the JSON tokenizer rejects invalid UTF-8 unconditionally, C21); that utf8.Valid is the right predicate (trusted std); acceptance of all valid UTF-8 on concrete values.",
 		Quick:      all("./proto", "./internal/impl", "./encoding/protojson", "./encoding/prototext", "./types/dynamicpb"),
 		Thorough:   allAndLegacy("./proto", "./internal/impl", "./encoding/protojson", "./encoding/prototext", "./types/dynamicpb"),
